@@ -108,6 +108,8 @@ func (r *renderer) stmt(n N) {
 		r.line("throw " + Expr(node(n["e"])))
 	case "let":
 		r.line(exprs(list(n, "lhs")) + " = " + exprs(list(n, "rhs")))
+	case "letmi":
+		r.line(exprs(list(n, "lhs")) + " = " + Expr(node(n["rhs"])))
 	case "var":
 		var names []string
 		for _, x := range list(n, "names") {
@@ -396,6 +398,8 @@ func encStmt(s ast.Stmt) N {
 		return N{"k": "throw", "e": encExpr(x.Expr)}
 	case *ast.LetsStmt:
 		return N{"k": "let", "lhs": encExprs(x.LHSS), "rhs": encExprs(x.RHSS)}
+	case *ast.LetMapItemStmt:
+		return N{"k": "letmi", "lhs": encExprs(x.LHSS), "rhs": encExpr(x.RHS)}
 	case *ast.VarStmt:
 		return N{"k": "var", "names": strs(x.Names), "rhs": encExprs(x.Exprs)}
 	case *ast.IfStmt:
